@@ -1,5 +1,6 @@
 //! C09: Generation::serial_next / par_next with an instrumented child maker.
 //! input = [mode, population, fail_at]   mode 0 = serial_next, T > 0 = par_next in a rayon pool of T threads
+//!   mode 100 + T: the same with scored individuals and a child maker built through GenomeScorer (probe genome maker + scorer)
 //!      or [mode, population, fail_at, [[mode, fail_at]...]]: further steps of the SAME Generation value
 //!         (observation then has a 4th element: the list of [result, population afterwards, log] of those steps)
 //! observation = [[0] | [1, error], population afterwards,
@@ -8,7 +9,11 @@ use std::sync::atomic::{AtomicI64, AtomicUsize, Ordering};
 use std::sync::{Arc, Mutex};
 
 use ec_core::generation::Generation;
+use ec_core::individual::ec::EcIndividual;
+use ec_core::individual::scorer::FnScorer;
+use ec_core::operator::genome_scorer::GenomeScorer;
 use ec_core::operator::{Composable, Operator};
+use ec_core::test_results::{Score, TestResults};
 
 use crate::*;
 
@@ -45,6 +50,76 @@ impl<'p> Operator<&'p Vec<i64>> for Probe {
     }
 }
 
+type Ind = EcIndividual<i64, TestResults<Score<i64>>>;
+fn score_of(g: &i64) -> TestResults<Score<i64>> {
+    vec![g.rem_euclid(1000), 1].into_iter().collect()
+}
+/// the genome-making half of a GenomeScorer child maker, instrumented like `Probe`
+#[derive(Clone)]
+struct GProbe(Probe);
+impl Composable for GProbe {}
+impl<'p> Operator<&'p Vec<Ind>> for GProbe {
+    type Output = i64;
+    type Error = CmErr;
+    fn apply<R: rand::Rng + ?Sized>(&self, pop: &'p Vec<Ind>, rng: &mut R) -> Result<i64, CmErr> {
+        let p = &self.0;
+        let k = p.calls.fetch_add(1, Ordering::SeqCst);
+        let (w1, w2) = (rng.next_u64(), rng.next_u64());
+        let addr_ok = std::ptr::eq(pop, p.addr.load(Ordering::SeqCst) as *const Vec<Ind>);
+        let same = pop.iter().map(|i| i.genome).collect::<Vec<i64>>() == *p.old.lock().unwrap()
+            && pop.iter().all(|i| i.test_results == score_of(&i.genome));
+        let child = (w1 >> 2) as i64;
+        let failed = k == p.fail_at.load(Ordering::SeqCst);
+        p.log.lock().unwrap().push(tl![ab(addr_ok), ab(same), a(w1), a(w2), ab(failed), a(if failed { k } else { child })]);
+        if failed {
+            Err(CmErr(k))
+        } else {
+            Ok(child)
+        }
+    }
+}
+
+fn run_scored(steps: &[(usize, i64)], pop: Vec<i64>, four: bool) -> Option<Tree> {
+    let probe = Probe {
+        log: Arc::new(Mutex::new(vec![])),
+        calls: Arc::new(AtomicI64::new(0)),
+        fail_at: Arc::new(AtomicI64::new(-1)),
+        old: Arc::new(Mutex::new(pop.clone())),
+        addr: Arc::new(AtomicUsize::new(0)),
+    };
+    let population: Vec<Ind> = pop.iter().map(|g| EcIndividual::new(*g, score_of(g))).collect();
+    let scorer = FnScorer(|g: &i64| score_of(g));
+    let mut g = Generation::new(GenomeScorer::new(GProbe(probe.clone()), scorer), population);
+    let mut outs: Vec<Tree> = vec![];
+    for (mode, fail_at) in steps {
+        *probe.old.lock().unwrap() = g.population().iter().map(|i| i.genome).collect();
+        probe.log.lock().unwrap().clear();
+        probe.calls.store(0, Ordering::SeqCst);
+        probe.fail_at.store(*fail_at, Ordering::SeqCst);
+        probe.addr.store(g.population() as *const Vec<Ind> as usize, Ordering::SeqCst);
+        let threads = mode - 100;
+        let r = if threads == 0 {
+            g.serial_next()
+        } else {
+            let pool = rayon::ThreadPoolBuilder::new().num_threads(threads).build().ok()?;
+            pool.install(|| g.par_next())
+        };
+        let res = match r {
+            Ok(()) => tl![A(0)],
+            Err(e) => tl![A(1), a(e.0)],
+        };
+        // a child whose results are not the scorer's results for its genome shows up as a foreign genome
+        let after: Vec<Tree> = g.population().iter().map(|i| a(if i.test_results == score_of(&i.genome) { i.genome } else { -777_777 })).collect();
+        let log = probe.log.lock().unwrap().clone();
+        outs.push(tl![res, L(after), L(log)]);
+    }
+    let mut first = outs.remove(0).list()?.to_vec();
+    if four {
+        first.push(L(outs));
+    }
+    Some(L(first))
+}
+
 fn run(input: &Tree) -> Option<Tree> {
     let l = input.list()?;
     if l.len() != 3 && l.len() != 4 {
@@ -60,6 +135,9 @@ fn run(input: &Tree) -> Option<Tree> {
             }
             steps.push((st.first()?.usize()?, st.get(1)?.i64()?));
         }
+    }
+    if steps.iter().all(|(m, _)| (100..=164).contains(m)) {
+        return run_scored(&steps, pop, l.len() == 4);
     }
     if steps.iter().any(|(m, _)| *m > 64) {
         return None;
@@ -122,6 +200,17 @@ fn gen(tier: &str, rng: &mut Sm) -> Gen {
             }
         }
     }
+    // a child maker built through GenomeScorer (genome maker + scorer): a one-off failure of the genome maker
+    // must fail the step (not be retried), and every child must carry the scorer's result for its genome
+    for size in [1usize, 2, 5] {
+        let pop: Vec<Tree> = (0..size).map(|_| a(rng.range(-1000, 1000))).collect();
+        for mode in [100usize, 101, 103] {
+            for f in -1..=size as i64 {
+                g.inputs.push(tl![au(mode), L(pop.clone()), a(f)]);
+            }
+        }
+        g.inputs.push(tl![A(100), L(pop.clone()), A(0), L(vec![tl![A(100), A(-1)], tl![A(102), a(size as i64 - 1)], tl![A(100), A(-1)]])]);
+    }
     // histories: ONE Generation value stepped several times - failing steps (at every position) followed by
     // successful ones, serial and parallel mixed; each step is judged from the population the previous one left
     for size in [1usize, 2, 3, 7] {
@@ -133,6 +222,6 @@ fn gen(tier: &str, rng: &mut Sm) -> Gen {
         }
         g.inputs.push(tl![A(0), L(pop.clone()), A(-1), L(vec![tl![A(0), A(-1)], tl![A(4), A(-1)], tl![A(0), a(size as i64 - 1)], tl![A(0), A(-1)]])]);
     }
-    g.meta("generator", format!("population sizes 0, 1, 2, 7, 64; serial_next and par_next under rayon pools of 1, 2, 3, 4, 8, 16 threads x {reps} repetitions; failure injected at every call position (sampled for size 64) and none; histories of 5 steps of one Generation value (failing steps followed by successful ones, serial and parallel mixed)"));
+    g.meta("generator", format!("population sizes 0, 1, 2, 7, 64; serial_next and par_next under rayon pools of 1, 2, 3, 4, 8, 16 threads x {reps} repetitions; failure injected at every call position (sampled for size 64) and none; a child maker built through GenomeScorer with a one-off failing genome maker; histories of 5 steps of one Generation value (failing steps followed by successful ones, serial and parallel mixed)"));
     g
 }
